@@ -220,6 +220,27 @@ ValueIsFixpoint ==
        ELSE IF U[c] = NOVAL THEN ok = {}
        ELSE /\ \E a \in ok : U[c] = Look(g, U, c, a)
             /\ \A a \in ok : U[c] >= Look(g, U, c, a)
+\* the grid world as an instance of the shared MDP library (cells in state-list order, T last and
+\* explicitly absorbing), and agreement of GridValue with the library's policy-enumeration oracle
+\* on the layouts small enough for it (at most 3 cells)
+AsMDP(i) ==
+  LET n == i.W * i.H + 1
+      st == [k \in 1..n |-> IF k = n THEN T ELSE <<(k - 1) \div i.H, (k - 1) % i.H>>]
+  IN [N |-> n, K |-> 5, PD |-> i.SPD, GN |-> i.GN, GD |-> i.GD, ID |-> 1,
+      abs |-> [k \in 1..n |-> IF k = n THEN 1 ELSE 0],
+      avail |-> [k \in 1..n |-> [a \in 1..5 |-> 1]],
+      P |-> [k \in 1..n |-> [a \in 1..5 |-> [t \in 1..n |-> OProb(i, st[k], Acts[a], st[t])]]],
+      R |-> [k \in 1..n |-> [a \in 1..5 |-> [t \in 1..n |-> ORew(i, st[k], Acts[a], st[t])]]],
+      p0 |-> [k \in 1..n |-> IF k = 1 THEN 1 ELSE 0]]
+ValueAgreesWithMDPOracle ==
+  (Walking /\ Valued(g) /\ pos = <<0, 0>> /\ g.W * g.H <= 3) =>
+     LET m == TLCEval(AsMDP(g))
+         V == OptimalValue(m)
+         U == GridValue(g)
+     IN /\ WellFormed(m)
+        /\ \A k \in 1..(g.W * g.H) :
+              LET c == <<(k - 1) \div g.H, (k - 1) % g.H>> IN
+              IF U[c] = NOVAL THEN V[k] = NEG ELSE V[k] = Norm(U[c], g.SPN)
 \* --- of every step of every walk (action properties)
 \* the agent never enters a wall and never leaves the grid
 NeverEntersWall == [][(Walking /\ pos' # pos) => (pos' = T \/ (InGrid(g, pos') /\ ~IsWall(g, pos')))]_vars
